@@ -64,7 +64,7 @@ def gen_cases(rng, tier):
   i = 0
   while len(out) < n:
     i += 1
-    L = lg.gen_leaf(rng, cls=CLASSES[i % len(CLASSES)], n=lg.pick(rng, [1, 2, 3, 4, 5]))
+    L = lg.gen_leaf(rng, cls=CLASSES[i % len(CLASSES)], n=lg.pick(rng, [1, 2, 3, 4, 5]), variant=i // len(CLASSES))
     if L['cls'] == 'ADevice':
       L['ucons'] = []
       if 'demand' in lg.fn_kinds(L['f']):
